@@ -431,6 +431,18 @@ def thread_fns(shape, n):
 
             fns.append(ffn)
             continue
+        if kind == "abort":
+            # a copy that fails half-way (an uncopyable object behind a module) while other threads are copying: their copies
+            # still succeed, and the table is back to what it was afterwards
+            def afn(i=i):
+                try:
+                    Out(mods=[sys, {"k": Uncopyable()}], item=make_in(i))
+                except (TypeError, ValueError):
+                    return True, None
+                return False, None
+
+            fns.append(afn)
+            continue
         if kind.startswith("shared_"):
             def sfn(kind=kind):
                 if kind == "shared_deepcopy":
@@ -535,7 +547,7 @@ def count_steps(shape, threads, narrow=False):
 
 
 SHAPES = [["deepcopy", "deepcopy"], ["helper", "deepcopy"], ["protect", "helper"], ["deepcopy", "protect", "helper"],
-          ["shared_deepcopy", "shared_helper"], ["shared_helper", "shared_helper"], ["first_use", "first_use"]]
+          ["shared_deepcopy", "shared_helper"], ["shared_helper", "shared_helper"], ["first_use", "first_use"], ["deepcopy", "abort"]]
 
 BOUNDS = {
     "quick": dict(seq_examples=40, seq_units=8, conc_hyp=40, double=False),
